@@ -8,9 +8,10 @@ Part 1 (reducer): every command list is *tracked* by the state it comes with —
 `(worker id, event)` rows a tick appends to a step's `in_progress` list are exactly the
 `runWorker` commands it emits for that step, in order (`Track`).  The only rows a tick
 removes are the row of a `stepResult` tick's own `(step, worker)`; a collect re-run keeps
-that row and re-issues `runWorker` for it — once, provided no collect buffer is named
-twice by the results of one invocation (`CollectOnce`; without the guard one tick can
-re-issue the same slot twice, see `WfProps/C01.lean`).
+that row and re-issues `runWorker` for it — at most once per tick: once the re-run is
+scheduled the remaining `AddCollectedEvent` results of the tick are skipped
+(`foldl_applyRes_rerun`; the reducer before that repair could re-issue the same slot twice,
+see `WfProofs/EngineUnrepaired.lean` and `WfProps/C01.lean`).
 
 Part 2 (runner): `RunInv`, preserved by every action.
 -/
@@ -270,111 +271,10 @@ theorem processAddEvent_track (cfg : Cfg) (att : Attempt) (target : Option Nat) 
       (addEventWaiters cfg att.ev target now cfg.steps { st := addEventStart att st }))
   exact ⟨h2.1.append_noStart hn, h2.2.append (CfgStarts.of_noStart hn)⟩
 
-/-! ### collected-event buffers -/
-
-theorem Collected.get_touch (c : Collected) (b b' : Nat) : (c.touch b).get b' = c.get b' := by
-  unfold Collected.touch
-  split
-  · rfl
-  · rename_i hb
-    simp only [Collected.get, List.find?_append]
-    cases hf : c.find? (fun p => p.1 == b') with
-    | some p => simp
-    | none =>
-      by_cases hbb : b = b'
-      · simp [hbb]
-      · have : (b == b') = false := by simpa using hbb
-        simp [List.find?_cons, this]
-
-theorem find?_map_other (b b' : Nat) (hne : b' ≠ b) (f : (Nat × List Ev) → (Nat × List Ev))
-    (hf : ∀ p, p.1 ≠ b → f p = p) (hfb : ∀ p, p.1 = b → (f p).1 = b) :
-    ∀ l : List (Nat × List Ev),
-      ((l.map f).find? (fun p => p.1 == b')).map (·.2) = (l.find? (fun p => p.1 == b')).map (·.2)
-  | [] => rfl
-  | x :: xs => by
-    simp only [List.map_cons, List.find?_cons]
-    by_cases hx : x.1 = b
-    · have h1 : ((f x).1 == b') = false := by
-        rw [hfb x hx]; simpa using fun h => hne h.symm
-      have h2 : (x.1 == b') = false := by
-        rw [hx]; simpa using fun h => hne h.symm
-      rw [h1, h2]; exact find?_map_other b b' hne f hf hfb xs
-    · rw [hf x hx]
-      split
-      · rfl
-      · exact find?_map_other b b' hne f hf hfb xs
-
-theorem Collected.get_eq (c : Collected) (b : Nat) :
-    c.get b = ((c.find? (fun p => p.1 == b)).map (·.2)).getD [] := by
-  unfold Collected.get
-  cases c.find? (fun p => p.1 == b) <;> rfl
-
-theorem Collected.get_append_other (c : Collected) (b b' : Nat) (e : Ev) (hne : b' ≠ b) :
-    (c.append b e).get b' = c.get b' := by
-  rw [← Collected.get_touch c b b']
-  unfold Collected.append
-  rw [Collected.get_eq, Collected.get_eq]
-  rw [find?_map_other b b' hne]
-  · intro p hp
-    have : (p.1 == b) = false := by simpa using hp
-    simp [this]
-  · intro p hp
-    simp [hp]
-
-theorem Collected.get_pop_le (c : Collected) (b b' : Nat) :
-    ((c.pop b).get b').length ≤ (c.get b').length := by
-  unfold Collected.pop
-  induction c with
-  | nil => simp [Collected.get]
-  | cons x xs ih =>
-    simp only [List.filter_cons]
-    by_cases hx : x.1 = b
-    · simp only [hx, beq_self_eq_true, Bool.not_true, Bool.false_eq_true, ↓reduceIte]
-      by_cases hbb : b = b'
-      · subst hbb
-        -- nothing with key `b` survives the filter
-        have : (List.filter (fun p => !p.1 == b) xs).find? (fun p => p.1 == b) = none := by
-          apply List.find?_eq_none.mpr
-          intro p hp
-          have := (List.mem_filter.mp hp).2
-          simpa using this
-        simp [Collected.get, this]
-      · have h2 : (x.1 == b') = false := by rw [hx]; simpa using hbb
-        have : Collected.get (x :: xs) b' = Collected.get xs b' := by
-          simp [Collected.get, List.find?_cons, h2]
-        rw [this]; exact ih
-    · have h1 : (!x.1 == b) = true := by simpa using hx
-      simp only [h1, ↓reduceIte]
-      by_cases hxb : x.1 = b'
-      · simp [Collected.get, List.find?_cons, hxb]
-      · have h2 : (x.1 == b') = false := by simpa using hxb
-        have e1 : Collected.get (x :: xs) b' = Collected.get xs b' := by
-          simp [Collected.get, List.find?_cons, h2]
-        have e2 : Collected.get (x :: List.filter (fun p => !p.1 == b) xs) b'
-            = Collected.get (List.filter (fun p => !p.1 == b) xs) b' := by
-          simp [Collected.get, List.find?_cons, h2]
-        rw [e1, e2]; exact ih
-
 /-! ### step results: at most one collect re-run per tick -/
 
-def collectBuf : Res → Option Nat
-  | .addCollected b _ => some b
-  | _ => none
-
-def collectBufs (res : List Res) : List Nat := res.filterMap collectBuf
-
-/-- no collect buffer is named twice by the results of one invocation -/
-def CollectOnce (res : List Res) : Prop := (collectBufs res).Nodup
-
-instance (res : List Res) : Decidable (CollectOnce res) := by unfold CollectOnce; infer_instance
-
-/-- once a re-run was issued, the snapshot sent with it is up to date for the buffers
-the remaining results still name -/
-def SnapOk (step : Nat) (acc : ResAcc) (bufs : List Nat) : Prop :=
-  acc.stillInProgress = true → ∀ b ∈ bufs,
-    ((acc.st.workers step).collected.get b).length ≤ (acc.exec.snapEvents.get b).length
-
-/-- what one result does to the re-run flag and the started workers -/
+/-- what results do to the re-run flag and the started workers: nothing, or the one re-run of
+the tick (the flag goes up, `runWorker` is re-issued for the invocation's own slot) -/
 def RerunStep (step : Nat) (acc acc' : ResAcc) (rs : List Res) : Prop :=
   (acc'.stillInProgress = acc.stillInProgress ∧ workersOf acc'.cmds = workersOf acc.cmds) ∨
   (acc.stillInProgress = false ∧ acc'.stillInProgress = true ∧
@@ -386,26 +286,20 @@ theorem workersOf_snoc_noStart (cmds extra : List Cmd) (h : NoStart extra) :
   rw [workersOf_append, h.workersOf, List.append_nil]
 
 theorem applyRes_rerun (cfg : Cfg) (pol : Policy) (step : Nat) (tickEv : Ev) (dc : Bool)
-    (acc : ResAcc) (r : Res) (rest : List Nat)
-    (hnd : ∀ b, collectBuf r = some b → b ∉ rest)
-    (hsnap : SnapOk step acc ((collectBuf r).toList ++ rest)) :
-    SnapOk step (applyRes cfg pol step tickEv dc acc r) rest ∧
-      RerunStep step acc (applyRes cfg pol step tickEv dc acc r) [r] ∧
+    (acc : ResAcc) (r : Res) :
+    RerunStep step acc (applyRes cfg pol step tickEv dc acc r) [r] ∧
       (applyRes cfg pol step tickEv dc acc r).exec.ev = acc.exec.ev := by
-  have hrest : SnapOk step acc rest := fun h b hb => hsnap h b (by simp [hb])
   cases r with
   | result r =>
     cases r with
-    | none => exact ⟨hrest, Or.inl ⟨rfl, rfl⟩, rfl⟩
+    | none => exact ⟨Or.inl ⟨rfl, rfl⟩, rfl⟩
     | some ev =>
       simp only [applyRes]
       split
-      · refine ⟨?_, Or.inl ⟨rfl, ?_⟩, rfl⟩
-        · intro _ b _
-          simp [clearAll, Collected.get]
-        · apply workersOf_snoc_noStart
-          intro s e w; simp
-      · refine ⟨hrest, Or.inl ⟨rfl, ?_⟩, rfl⟩
+      · refine ⟨Or.inl ⟨rfl, ?_⟩, rfl⟩
+        apply workersOf_snoc_noStart
+        intro s e w; simp
+      · refine ⟨Or.inl ⟨rfl, ?_⟩, rfl⟩
         rw [List.append_assoc]
         apply workersOf_snoc_noStart
         intro s e w
@@ -413,92 +307,52 @@ theorem applyRes_rerun (cfg : Cfg) (pol : Policy) (step : Nat) (tickEv : Ev) (dc
   | failed exc failedAt =>
     simp only [applyRes]
     split
-    · exact ⟨hrest, Or.inl ⟨rfl, workersOf_snoc_noStart _ _ (by intro s e w; simp)⟩, rfl⟩
-    · exact ⟨hrest, Or.inl ⟨rfl, workersOf_snoc_noStart _ _ (by intro s e w; simp)⟩, rfl⟩
+    · exact ⟨Or.inl ⟨rfl, workersOf_snoc_noStart _ _ (by intro s e w; simp)⟩, rfl⟩
+    · exact ⟨Or.inl ⟨rfl, workersOf_snoc_noStart _ _ (by intro s e w; simp)⟩, rfl⟩
     · split
       · split
-        · exact ⟨hrest, Or.inl ⟨rfl, workersOf_snoc_noStart _ _ (by intro s e w; simp)⟩, rfl⟩
-        · exact ⟨hrest, Or.inl ⟨rfl, workersOf_snoc_noStart _ _ (by intro s e w; simp)⟩, rfl⟩
-      · exact ⟨hrest, Or.inl ⟨rfl, workersOf_snoc_noStart _ _ (by intro s e w; simp)⟩, rfl⟩
+        · exact ⟨Or.inl ⟨rfl, workersOf_snoc_noStart _ _ (by intro s e w; simp)⟩, rfl⟩
+        · exact ⟨Or.inl ⟨rfl, workersOf_snoc_noStart _ _ (by intro s e w; simp)⟩, rfl⟩
+      · exact ⟨Or.inl ⟨rfl, workersOf_snoc_noStart _ _ (by intro s e w; simp)⟩, rfl⟩
   | addCollected buf ev =>
-    have hb : buf ∉ rest := hnd buf rfl
     simp only [applyRes]
     split
-    · rename_i hgt
-      -- a re-run is issued: impossible if one was issued before
-      have hsip : acc.stillInProgress = false := by
-        cases hs : acc.stillInProgress with
-        | false => rfl
-        | true =>
-          have := hsnap hs buf (by simp [collectBuf])
-          rw [Collected.get_touch] at hgt
-          omega
-      refine ⟨?_, Or.inr ⟨hsip, rfl, buf, ev, by simp, ?_⟩, rfl⟩
-      · intro _ b _
-        simp [State.set]
-      · simp [workersOf_append, workersOf, workerOf]
-    · refine ⟨?_, Or.inl ⟨rfl, rfl⟩, rfl⟩
-      intro hs b hbm
-      have hne : b ≠ buf := fun h => hb (h ▸ hbm)
-      have := hrest hs b hbm
-      simp only [State.set, ↓reduceIte]
-      rw [Collected.get_append_other _ _ _ _ hne, Collected.get_touch]
-      exact this
+    · -- a re-run is already scheduled: skipped
+      exact ⟨Or.inl ⟨rfl, rfl⟩, rfl⟩
+    · rename_i hsip
+      have hsip' : acc.stillInProgress = false := by simpa using hsip
+      split
+      · refine ⟨Or.inr ⟨hsip', rfl, buf, ev, by simp, ?_⟩, rfl⟩
+        simp [workersOf_append, workersOf, workerOf]
+      · exact ⟨Or.inl ⟨rfl, rfl⟩, rfl⟩
   | deleteCollected buf =>
     simp only [applyRes]
-    split
-    · refine ⟨?_, Or.inl ⟨rfl, rfl⟩, rfl⟩
-      intro hs b hbm
-      have := hrest hs b hbm
-      simp only [State.set, ↓reduceIte]
-      exact Nat.le_trans (Collected.get_pop_le _ _ _) this
-    · exact ⟨hrest, Or.inl ⟨rfl, rfl⟩, rfl⟩
+    split <;> exact ⟨Or.inl ⟨rfl, rfl⟩, rfl⟩
   | addWaiter wid waiterEv req timeout ty =>
     simp only [applyRes]
     split
-    · refine ⟨?_, Or.inl ⟨rfl, rfl⟩, rfl⟩
-      intro hs b hbm
-      have := hrest hs b hbm
-      simpa [State.set] using this
-    · refine ⟨?_, Or.inl ⟨rfl, ?_⟩, rfl⟩
-      · intro hs b hbm
-        have := hrest hs b hbm
-        simpa [State.set] using this
-      · rw [List.append_assoc]
-        apply workersOf_snoc_noStart
-        intro s e w
-        cases waiterEv <;> cases timeout <;> simp
+    · exact ⟨Or.inl ⟨rfl, rfl⟩, rfl⟩
+    · refine ⟨Or.inl ⟨rfl, ?_⟩, rfl⟩
+      rw [List.append_assoc]
+      apply workersOf_snoc_noStart
+      intro s e w
+      cases waiterEv <;> cases timeout <;> simp
   | deleteWaiter wid =>
     simp only [applyRes]
-    split
-    · refine ⟨?_, Or.inl ⟨rfl, rfl⟩, rfl⟩
-      intro hs b hbm
-      have := hrest hs b hbm
-      simpa [State.set] using this
-    · exact ⟨hrest, Or.inl ⟨rfl, rfl⟩, rfl⟩
+    split <;> exact ⟨Or.inl ⟨rfl, rfl⟩, rfl⟩
 
-theorem collectBufs_cons (r : Res) (rs : List Res) :
-    collectBufs (r :: rs) = (collectBuf r).toList ++ collectBufs rs := by
-  unfold collectBufs
-  cases h : collectBuf r <;> simp [List.filterMap_cons, h]
-
+/-- **one tick, at most one re-run** — for every result list -/
 theorem foldl_applyRes_rerun (cfg : Cfg) (pol : Policy) (step : Nat) (tickEv : Ev) (dc : Bool) :
-    ∀ (res : List Res) (acc : ResAcc), CollectOnce res → SnapOk step acc (collectBufs res) →
+    ∀ (res : List Res) (acc : ResAcc),
       RerunStep step acc (res.foldl (applyRes cfg pol step tickEv dc) acc) res ∧
         (res.foldl (applyRes cfg pol step tickEv dc) acc).exec.ev = acc.exec.ev
-  | [], acc, _, _ => ⟨Or.inl ⟨rfl, rfl⟩, rfl⟩
-  | r :: rs, acc, hnd, hsnap => by
+  | [], acc => ⟨Or.inl ⟨rfl, rfl⟩, rfl⟩
+  | r :: rs, acc => by
     simp only [List.foldl_cons]
-    unfold CollectOnce at hnd
-    rw [collectBufs_cons] at hnd hsnap
-    have hnd' := List.nodup_append.mp hnd
-    have hfresh : ∀ b, collectBuf r = some b → b ∉ collectBufs rs := by
-      intro b hb hm
-      exact hnd'.2.2 b (by simp [hb]) b hm rfl
-    obtain ⟨h1s, h1r, h1e⟩ := applyRes_rerun cfg pol step tickEv dc acc r (collectBufs rs) hfresh hsnap
+    obtain ⟨h1r, h1e⟩ := applyRes_rerun cfg pol step tickEv dc acc r
     have hwid := (applyRes_inProg cfg pol step tickEv dc acc r).2
     obtain ⟨h2r, h2e⟩ := foldl_applyRes_rerun cfg pol step tickEv dc rs
-      (applyRes cfg pol step tickEv dc acc r) hnd'.2.1 h1s
+      (applyRes cfg pol step tickEv dc acc r)
     refine ⟨?_, h2e.trans h1e⟩
     rcases h1r with ⟨a1, a2⟩ | ⟨a1, a2, b, e, a3, a4⟩
     · rcases h2r with ⟨b1, b2⟩ | ⟨b1, b2, b', e', b3, b4⟩
@@ -764,7 +618,6 @@ theorem frame_step_tail {cfg : Cfg} {P : Prop} {step worker : Nat} {st st' : Sta
 
 theorem processStepResult_frame (cfg : Cfg) (hwf : cfg.WF) (pol : Policy) (P : Prop) (step worker : Nat)
     (tickEv : Ev) (res : List Res) (st : State) (now : Int) (hids : IdsInv cfg st)
-    (hco : CollectOnce res)
     (hP : P → (∀ ip ∈ (st.workers step).inProg, ip.wid = worker → ip.ev = tickEv) ∧
       ∀ b e, Res.addCollected b e ∈ res → e = tickEv) :
     Frame cfg P (fun s w => s = step ∧ w = worker) st
@@ -787,7 +640,7 @@ theorem processStepResult_frame (cfg : Cfg) (hwf : cfg.WF) (pol : Policy) (P : P
       have hfold := foldl_applyRes_inProg cfg pol c.name tickEv (res.any isResult) res
         { st := st, exec := exec }
       have hrr := foldl_applyRes_rerun cfg pol c.name tickEv (res.any isResult) res
-        { st := st, exec := exec } hco (by intro h; cases h)
+        { st := st, exec := exec }
       have hinv : IdsInv cfg (res.foldl (applyRes cfg pol c.name tickEv (res.any isResult))
           { st := st, exec := exec }).st := IdsInv.of_inProg_eq hids hfold.1
       simp only [RerunStep, workersOf, List.filterMap_nil, List.nil_append] at hrr
@@ -899,12 +752,12 @@ def Tick.freed : Tick → Nat → Nat → Prop
   | .stepResult s w _ _ => fun s' w' => s' = s ∧ w' = w
   | _ => fun _ _ => False
 
-/-- what is required of a `stepResult` tick: its results name no collect buffer twice; and
-(only for the event clause `P`) it carries the event of its in-progress row and re-runs with it -/
+/-- what is required of a `stepResult` tick — only for the event clause `P`: it carries the
+event of its in-progress row and re-runs with it -/
 def TickOk (P : Prop) (st : State) : Tick → Prop
-  | .stepResult s w ev res => CollectOnce res ∧
-      (P → (∀ ip ∈ (st.workers s).inProg, ip.wid = w → ip.ev = ev) ∧
-        ∀ b e, Res.addCollected b e ∈ res → e = ev)
+  | .stepResult s w ev res =>
+      P → (∀ ip ∈ (st.workers s).inProg, ip.wid = w → ip.ev = ev) ∧
+        ∀ b e, Res.addCollected b e ∈ res → e = ev
   | _ => True
 
 theorem Frame.append_noStart {cfg : Cfg} {P : Prop} {freed : Nat → Nat → Prop} {st st' : State}
@@ -930,7 +783,7 @@ theorem reduce_frame (cfg : Cfg) (hwf : cfg.WF) (pol : Policy) (P : Prop) (tick 
   cases tick with
   | stepResult step worker ev res =>
     simp only [Tick.freed]
-    exact Frame.withIdle (processStepResult_frame cfg hwf pol P step worker ev res st now hids hok.1 hok.2)
+    exact Frame.withIdle (processStepResult_frame cfg hwf pol P step worker ev res st now hids hok)
   | addEvent att target =>
     simp only [Tick.freed]
     have ht := processAddEvent_track cfg att target st now
@@ -1052,13 +905,6 @@ def Act.sameEventAt (r : Runner) : Act → Bool
     r.running.all (fun x => !(x.step == s && x.wid == w) || res.all (Res.evIs x.ev))
   | _ => true
 
-def Act.CollectOnce : Act → Prop
-  | .workerDone _ _ res => Engine.CollectOnce res
-  | _ => True
-
-instance (a : Act) : Decidable a.CollectOnce := by
-  cases a <;> simp only [Act.CollectOnce] <;> infer_instance
-
 /-- the runner invariant.  `P` switches the event clause on. -/
 structure RunInv (cfg : Cfg) (P : Prop) (r : Runner) : Prop where
   ids : IdsInv cfg r.st
@@ -1067,7 +913,7 @@ structure RunInv (cfg : Cfg) (P : Prop) (r : Runner) : Prop where
   nodup : (r.running.map Worker.slot).Nodup
   mbox : NoSR r.mailbox
   heap : HeapNoSR r.heap
-  buf : NoSR r.buf ∨ ∃ s w ev res, r.buf = [.stepResult s w ev res] ∧ CollectOnce res ∧
+  buf : NoSR r.buf ∨ ∃ s w ev res, r.buf = [.stepResult s w ev res] ∧
     (∀ x ∈ r.running, ¬ (x.step = s ∧ x.wid = w)) ∧
     (P → (∀ ip ∈ (r.st.workers s).inProg, ip.wid = w → ip.ev = ev) ∧
       ∀ b e, Res.addCollected b e ∈ res → e = ev)
@@ -1245,9 +1091,9 @@ theorem eq_of_nodup_wid : ∀ (l : List InProg), (l.map (·.wid)).Nodup →
 
 /-! ### one action -/
 
-/-- what is asked of an action: its results name no collect buffer twice; and (only for the
-event clause) its collect re-runs carry the finishing worker's own event -/
-def Act.Guard (P : Prop) (r : Runner) (a : Act) : Prop := a.CollectOnce ∧ (P → a.sameEventAt r = true)
+/-- what is asked of an action — only for the event clause: its collect re-runs carry the
+finishing worker's own event -/
+def Act.Guard (P : Prop) (r : Runner) (a : Act) : Prop := P → a.sameEventAt r = true
 
 theorem isStepResult_of_external {t : Tick} (h : t.isExternal = true) : t.isStepResult = false := by
   cases t <;> simp_all [Tick.isExternal, Tick.isStepResult]
@@ -1271,7 +1117,7 @@ theorem step_runInv (cfg : Cfg) (hwf : cfg.WF) (pol : Policy) (P : Prop) (r : Ru
           simp only [List.cons.injEq] at hb
           rw [hb.2]; intro x hx; cases hx
       have hTick : TickOk P r.st t ∧ ∀ x ∈ r.running, ¬ t.freed x.step x.wid := by
-        rcases h.buf with hn | ⟨s, w, ev, res, hb, hco, hfree, hp⟩
+        rcases h.buf with hn | ⟨s, w, ev, res, hb, hfree, hp⟩
         · have ht := hn t (by rw [hbuf]; simp)
           cases t <;> first
             | exact ⟨trivial, fun _ _ hf => hf⟩
@@ -1279,7 +1125,7 @@ theorem step_runInv (cfg : Cfg) (hwf : cfg.WF) (pol : Policy) (P : Prop) (r : Ru
         · rw [hbuf] at hb
           simp only [List.cons.injEq] at hb
           rw [hb.1]
-          exact ⟨⟨hco, hp⟩, hfree⟩
+          exact ⟨hp, hfree⟩
       split
       · exact ⟨h.ids, fun w hw => (by cases hw), List.nodup_nil, h.mbox, h.heap, Or.inl hrest⟩
       · obtain ⟨e1, e2, e3, e4, e5⟩ := execCmds_spec' (reduce cfg pol t r.st r.now).2
@@ -1310,7 +1156,7 @@ theorem step_runInv (cfg : Cfg) (hwf : cfg.WF) (pol : Policy) (P : Prop) (r : Ru
           · exact List.nil_sublist _
           · exact List.eraseP_sublist
         have hss := sub_of_sublist hsl ⟨h.sub, h.nodup⟩
-        refine ⟨h.ids, hss.1, hss.2, h.mbox, h.heap, Or.inr ⟨s, w, x.ev, res, rfl, hg.1, ?_, ?_⟩⟩
+        refine ⟨h.ids, hss.1, hss.2, h.mbox, h.heap, Or.inr ⟨s, w, x.ev, res, rfl, ?_, ?_⟩⟩
         · intro y hy
           simp only at hy
           split at hy
@@ -1328,7 +1174,7 @@ theorem step_runInv (cfg : Cfg) (hwf : cfg.WF) (pol : Policy) (P : Prop) (r : Ru
             have := eq_of_nodup_wid _ hnd ip hip ip0 hip0 (by rw [hipw, hw0, hxp.2])
             rw [this]; exact he0 hp
           · intro b e hmem
-            have hall := hg.2 hp
+            have hall := hg hp
             simp only [Act.sameEventAt, List.all_eq_true] at hall
             have := hall x hx
             simp only [hxp.1, hxp.2, beq_self_eq_true, Bool.and_self, Bool.not_true, Bool.false_or,
@@ -1383,13 +1229,11 @@ theorem run_runInv (cfg : Cfg) (hwf : cfg.WF) (pol : Policy) (P : Prop) :
     simp only [Runner.run, List.foldl_cons]
     exact run_runInv cfg hwf pol P as _ hg.2 (step_runInv cfg hwf pol P r a hg.1 h)
 
-/-- without the event clause the guard is a property of the action list alone -/
-theorem guarded_of_collectOnce (cfg : Cfg) (pol : Policy) :
-    ∀ (acts : List Act) (r : Runner), (∀ a ∈ acts, a.CollectOnce) → Runner.Guarded cfg pol False r acts
-  | [], _, _ => trivial
-  | a :: as, r, h =>
-    ⟨⟨h a (by simp), fun hf => hf.elim⟩,
-      guarded_of_collectOnce cfg pol as _ (fun b hb => h b (by simp [hb]))⟩
+/-- without the event clause nothing is asked of the schedule -/
+theorem guarded_false (cfg : Cfg) (pol : Policy) :
+    ∀ (acts : List Act) (r : Runner), Runner.Guarded cfg pol False r acts
+  | [], _ => trivial
+  | a :: as, r => ⟨fun hf => hf.elim, guarded_false cfg pol as _⟩
 
 /-! ### the start of a run -/
 
@@ -1492,12 +1336,11 @@ def Runner.sameEvent (cfg : Cfg) (pol : Policy) : Runner → List Act → Bool
   | r, a :: as => a.sameEventAt r && Runner.sameEvent cfg pol (r.step cfg pol a) as
 
 theorem guarded_of_sameEvent (cfg : Cfg) (pol : Policy) :
-    ∀ (acts : List Act) (r : Runner), (∀ a ∈ acts, a.CollectOnce) →
+    ∀ (acts : List Act) (r : Runner),
       Runner.sameEvent cfg pol r acts = true → Runner.Guarded cfg pol True r acts
-  | [], _, _, _ => trivial
-  | a :: as, r, h, hs => by
+  | [], _, _ => trivial
+  | a :: as, r, hs => by
     simp only [Runner.sameEvent, Bool.and_eq_true] at hs
-    exact ⟨⟨h a (by simp), fun _ => hs.1⟩,
-      guarded_of_sameEvent cfg pol as _ (fun b hb => h b (by simp [hb])) hs.2⟩
+    exact ⟨fun _ => hs.1, guarded_of_sameEvent cfg pol as _ hs.2⟩
 
 end Engine
